@@ -197,8 +197,8 @@ type callRun struct {
 	epoch int64
 	key   string
 	sc    *Script
-	eng  *Engine
-	free bool
+	eng   *Engine
+	free  bool
 
 	reqMsgs  []*gt.Message
 	respMsgs []*gt.Message
@@ -218,16 +218,16 @@ type callRun struct {
 	sTrl   [2]metadata.MD
 
 	cs, cs2, cr, h *actor
-	hStarted  chan struct{}
-	hDone     int32
+	hStarted       chan struct{}
+	hDone          int32
 
-	lastCRecv   int
-	lastHRecv   int
-	gotFirst    bool
-	termSeen    bool
-	term        int32 // the caller has obtained the final result
-	nEvents     int32
-	keep        []interface{}
+	lastCRecv int
+	lastHRecv int
+	gotFirst  bool
+	termSeen  bool
+	term      int32 // the caller has obtained the final result
+	nEvents   int32
+	keep      []interface{}
 }
 
 func (c *callRun) emit(ev string, kv ...interface{}) {
@@ -424,7 +424,10 @@ func (c *callRun) handlerOp(ctx context.Context, ss grpc.ServerStream, dec func(
 	unaryish := ss == nil
 	switch op.Name {
 	case "Recv", "RecvAll":
-		for {
+		// "receive to the end" is bounded: a stream that keeps delivering (a
+		// fault the specification reports at the first surplus message) must
+		// not keep the harness running
+		for n := 0; n < len(c.reqMsgs)+8; n++ {
 			m := c.newDest()
 			c.emit("HRecvCall")
 			a.cur.Store("Recv")
@@ -463,7 +466,12 @@ func (c *callRun) handlerOp(ctx context.Context, ss grpc.ServerStream, dec func(
 		c.emit("HSendRet", "k", k, "res", classify(err, c.sts))
 	case "SetHeader", "SendHeader":
 		i := op.Arg
-		md := c.hdrOps[i-1]
+		var md metadata.MD // operation number 0: empty metadata ("flush the headers")
+		if i > 0 {
+			md = c.hdrOps[i-1]
+		} else if c.sc.Seed%2 == 0 {
+			md = metadata.MD{}
+		}
 		c.emit("H"+op.Name+"Call", "i", i)
 		a.cur.Store(op.Name)
 		var err error
@@ -632,7 +640,7 @@ func (c *callRun) clientOp(a *actor, op Op) {
 		if c.stream == nil {
 			return
 		}
-		for {
+		for n := 0; n < len(c.respMsgs)+8; n++ {
 			m := c.newDest()
 			c.emit("CRecvCall")
 			a.cur.Store("Recv")
